@@ -297,6 +297,15 @@ def srlOp (i j : Nat) (coef : GQ) (n : Nat) : Op :=
   let r := srl i j coef n
   qubitOperatorCreation tol r.2.1 r.2.2
 
+/-- the exact regime of `_qubit_operator_creation` (see `Model.C04.sumOk`): every `+=` deleted only exact
+zeros; evaluated by the driver on every generated input -/
+def qocOk (ops : List Term) (coefs : List GQ) : Bool :=
+  C04.sumOk tol ((ops.zip coefs).map fun tc => mk .qubit tc.1 tc.2)
+
+def srlOk (i j : Nat) (coef : GQ) (n : Nat) : Bool :=
+  let r := srl i j coef n
+  qocOk tol r.2.1 r.2.2
+
 /-! ### `_bravyi_kitaev_interaction_operator` -/
 
 def get1 (n : Nat) (t : List GQ) (p q : Nat) : GQ := t.getD (p * n + q) 0
